@@ -1515,6 +1515,10 @@ func carrier(o *hx.Out, ctx, kind string, doc *c01x.Tree, file bool, name []byte
 	if exact && !same {
 		o.Fail("C02.carrier."+kind+"."+ctx, "%s out=%s", desc(), clip(hx.Hex(out)))
 	}
+	if !exact && !same && kind == "dyn" && !dynExact(doc) && !(ctx == "map" && hasDupKeys(doc)) && !(ctx == "list" && len(doc.List) == 0) {
+		// recorded finding (C02_carrier_dyn_refuted): the element id of an empty list is not kept
+		o.Fail("C02.carrier.dyn.empty-list-id", "%s out=%s", desc(), clip(hx.Hex(out)))
+	}
 }
 
 // ---------------------------------------------------------------- fixed types with embedding (predicate only)
@@ -1604,6 +1608,33 @@ func embedded(o *hx.Out) {
 	}
 }
 
+// dynbt.Value held BY VALUE in a struct field (the package documentation allows it): the encoder does not
+// find the pointer-receiver Marshaler and writes the struct's (unexported, hence empty) field table instead.
+type dynByValue struct{ D dynbt.Value }
+
+func dynValueField(o *hx.Out) {
+	for _, d := range []*dynbt.Value{dynbt.NewString("A"), dynbt.NewInt(7), dynbt.NewList(dynbt.NewByte(1))} {
+		v := dynByValue{D: *d}
+		want, _, _ := encode(d, false, "")
+		bs, err, pan := encode(v, true, "")
+		if pan != "" {
+			o.Fail("C02.panic.encode", "dynbt.Value by value: panic=%s", pan)
+			continue
+		}
+		var g dynByValue
+		var got []byte
+		if err == nil {
+			if _, _, derr, _ := decode(bs, true, &g); derr == nil {
+				got, _, _ = encode(&g.D, false, "")
+			}
+		}
+		o.Eval("dyn-value-field", true, "dyn by value "+hx.Hex(want))
+		if !bytes.Equal(got, want) {
+			o.Fail("C02.dyn-value-field", "struct{D dynbt.Value} holding %s: out=%s err=%v came back as %s", hx.Hex(want), hx.Hex(bs), err, hx.Hex(got))
+		}
+	}
+}
+
 // ---------------------------------------------------------------- main
 
 func main() {
@@ -1675,4 +1706,5 @@ func main() {
 	}
 	// 4. embedding through named helper types (predicate only: not in the model's universe)
 	embedded(o)
+	dynValueField(o)
 }
